@@ -32,4 +32,74 @@ extern int g_copy_calls; extern unsigned g_copy_dst_size; extern int g_copy_raw;
     __CPROVER_assigns(g_copy_calls, g_copy_dst_size, g_copy_raw, g_copy_cvt) \
     __CPROVER_ensures(g_copy_calls == __CPROVER_old(g_copy_calls) + 1 && g_copy_dst_size == (dsz) && g_copy_raw == (raw)) \
     COPY_CVT_##raw
+
+#if defined(WITH_GENERATE) || defined(WITH_PLAY)
+#ifndef GEN_MAX_CHIPS
+#define SKIP_BOUND 4294967296L
+#define GEN_MAX_CHIPS 4   /* the property's quantifier: 1..4 chips; the chip loop is unwound GEN_MAX_CHIPS+1 times with unwinding assertions */
+#endif
+/* ---- opn2_generateFormat (partial correctness; chips, SendStereoAudio and TickIterators by contract) ------------------- */
+#include "env_play.h"
+typedef OPNMIDIplay MidiPlayer;
+#define GET_MIDI_PLAYER(device) (&g_play)
+#define assert(x) __CPROVER_assert((x), "assert() of the original")
+extern unsigned g_gen_calls, g_send_calls, g_tick_calls; extern ssize_t g_sent_frames; extern struct OPN2_MIDIPlayer g_device; extern int g_send_fails;
+/* emulator cores (rule R8): fill/mix at most 512 stereo frames into the 1024-element mix buffer of the player */
+void chip_generate32(size_t card, int32_t *buf, size_t frames)
+__CPROVER_requires(card < g_synth.m_numChips && buf == g_play.m_outBuf && frames <= 512) __CPROVER_assigns(g_gen_calls, __CPROVER_object_upto(g_play.m_outBuf, sizeof(g_play.m_outBuf))) __CPROVER_ensures(g_gen_calls == __CPROVER_old(g_gen_calls) + 1);
+void chip_generateAndMix32(size_t card, int32_t *buf, size_t frames)
+__CPROVER_requires(card < g_synth.m_numChips && buf == g_play.m_outBuf && frames <= 512) __CPROVER_assigns(g_gen_calls, __CPROVER_object_upto(g_play.m_outBuf, sizeof(g_play.m_outBuf))) __CPROVER_ensures(g_gen_calls == __CPROVER_old(g_gen_calls) + 1);
+/* SendStereoAudio by its contract: the REQUIRES is exactly the caller-side assumption of the send_stereo_audio group */
+int SendStereoAudio_c(int samples_requested, ssize_t in_size, int32_t *_in, ssize_t out_pos, OPN2_UInt8 *left, OPN2_UInt8 *right, const OPNMIDI_AudioFormat *format)
+__CPROVER_requires(samples_requested >= 0 && samples_requested % 2 == 0 && out_pos >= 0 && out_pos % 2 == 0 && out_pos <= samples_requested && in_size >= 0 && in_size <= 512 && _in == g_play.m_outBuf)
+/* CHECKED at the call: every period is stored directly behind the previous one (ghost g_sent_frames = frames stored so far in this request) */
+__CPROVER_requires(g_sent_frames >= 0 && g_sent_frames <= 1073741823 && out_pos == 2 * g_sent_frames)
+__CPROVER_assigns(g_send_calls, g_sent_frames) __CPROVER_ensures(g_sent_frames == __CPROVER_old(g_sent_frames) + in_size) __CPROVER_ensures(g_send_calls == __CPROVER_old(g_send_calls) + 1 && (__CPROVER_return_value == 0 || __CPROVER_return_value == -1) && (__CPROVER_return_value == -1) == (g_send_fails != 0));
+void TickIterators(double s) __CPROVER_requires(s >= 0.0 && s <= g_play.m_setup.maxdelay) __CPROVER_assigns(g_tick_calls) __CPROVER_ensures(1);
+
+#ifdef WITH_GENERATE
+int opn2_generateFormat(struct OPN2_MIDIPlayer *device, int sampleCount, OPN2_UInt8 *out_left, OPN2_UInt8 *out_right, const OPNMIDI_AudioFormat *format)
+__CPROVER_requires((device == NULL || device == &g_device) && g_play.m_synth == &g_synth && g_synth.m_numChips >= 1 && g_synth.m_numChips <= GEN_MAX_CHIPS)
+/* setup invariant: positive finite rates and delays, the carry is a fraction */
+__CPROVER_requires(g_play.m_setup.PCM_RATE >= 1 && g_play.m_setup.PCM_RATE <= 1000000 && g_play.m_setup.maxdelay > 0.0 && g_play.m_setup.maxdelay <= 1000.0 &&
+                   g_play.m_setup.carry >= 0.0 && g_play.m_setup.carry < 1.0 && g_sent_frames == 0)
+__CPROVER_assigns(g_play.m_setup.carry, __CPROVER_object_upto(g_play.m_outBuf, sizeof(g_play.m_outBuf)), g_gen_calls, g_send_calls, g_tick_calls, g_sent_frames)
+/* IF the call returns: 0 for a negative count, a NULL device or an unsupported format; otherwise the request rounded down to even */
+__CPROVER_ensures(__CPROVER_return_value == 0 || (device != NULL && !g_send_fails && __CPROVER_return_value == sampleCount - sampleCount % 2 && sampleCount >= 2))
+__CPROVER_ensures(device != NULL && sampleCount >= 0 && !g_send_fails ==> __CPROVER_return_value == sampleCount - sampleCount % 2)
+__CPROVER_ensures(sampleCount < 0 || device == NULL ==> (__CPROVER_return_value == 0 && g_send_calls == __CPROVER_old(g_send_calls)))
+__CPROVER_ensures(g_play.m_setup.carry >= 0.0 && g_play.m_setup.carry < 1.0)
+/* exactly the reported number of samples was stored (unless the format was refused, where 0 is reported) */
+__CPROVER_ensures(!g_send_fails ==> (g_sent_frames >= 0 && g_sent_frames <= 1073741823 && __CPROVER_return_value == 2 * g_sent_frames));
+#endif
+#ifdef WITH_PLAY
+/* ---- opn2_playFormat (partial correctness; sequencer by contract) ------------------------------------------------------- */
+extern int g_atend_seen;
+/* ASSUMED contract of BW_MidiSequencer::positionAtEnd(): any answer; the ghost records that "end of song" was reported */
+bool seq_positionAtEnd(void) __CPROVER_requires(1) __CPROVER_assigns(g_atend_seen)
+__CPROVER_ensures((__CPROVER_return_value ==> g_atend_seen == 1) && (!__CPROVER_return_value ==> g_atend_seen == __CPROVER_old(g_atend_seen)));
+/* ASSUMED contract of OPNMIDIplay::Tick(): the next delay is a finite non-negative number of seconds (BW_MidiSequencer::Tick
+ * clamps negative waits to 0.0); CHECKED at the call: the library passes a time step inside [0, maxdelay] */
+double player_Tick(double s, double granularity) __CPROVER_requires(s >= 0.0 && s <= g_play.m_setup.maxdelay) __CPROVER_assigns(g_tick_calls)
+__CPROVER_ensures(__CPROVER_return_value >= 0.0 && __CPROVER_return_value <= 1.0e9);
+
+int opn2_playFormat(struct OPN2_MIDIPlayer *device, int sampleCount, OPN2_UInt8 *out_left, OPN2_UInt8 *out_right, const OPNMIDI_AudioFormat *format)
+__CPROVER_requires((device == NULL || device == &g_device) && g_play.m_synth == &g_synth && g_synth.m_numChips >= 1 && g_synth.m_numChips <= GEN_MAX_CHIPS)
+/* setup invariant: positive finite rates and delays, the carry is a fraction, the pending delay is finite and not negative */
+__CPROVER_requires(g_play.m_setup.PCM_RATE >= 1 && g_play.m_setup.PCM_RATE <= 1000000 && g_play.m_setup.maxdelay > 0.0 && g_play.m_setup.maxdelay <= 1000.0 &&
+                   g_play.m_setup.carry >= 0.0 && g_play.m_setup.carry < 1.0 && g_play.m_setup.delay >= 0.0 && g_play.m_setup.delay <= 1.0e9 &&
+                   g_play.m_setup.tick_skip_samples_delay >= -SKIP_BOUND && g_play.m_setup.tick_skip_samples_delay <= SKIP_BOUND && g_atend_seen == 0 && g_sent_frames == 0)
+__CPROVER_assigns(g_play.m_setup.carry, g_play.m_setup.delay, g_play.m_setup.tick_skip_samples_delay, __CPROVER_object_upto(g_play.m_outBuf, sizeof(g_play.m_outBuf)), g_gen_calls, g_send_calls, g_tick_calls, g_atend_seen, g_sent_frames)
+/* IF the call returns: an even count between 0 and the request rounded down to even ... */
+__CPROVER_ensures(__CPROVER_return_value >= 0 && __CPROVER_return_value % 2 == 0 && (sampleCount < 0 ? __CPROVER_return_value == 0 : __CPROVER_return_value <= sampleCount - sampleCount % 2))
+/* ... short only when the format was refused (0) or the sequencer reported the end of the song */
+__CPROVER_ensures(device != NULL && sampleCount >= 0 && !g_send_fails && !g_atend_seen ==> __CPROVER_return_value == sampleCount - sampleCount % 2)
+__CPROVER_ensures(g_send_fails && g_send_calls != __CPROVER_old(g_send_calls) ==> __CPROVER_return_value == 0)
+__CPROVER_ensures(sampleCount < 0 || device == NULL ==> (__CPROVER_return_value == 0 && g_send_calls == __CPROVER_old(g_send_calls)))
+__CPROVER_ensures(g_play.m_setup.carry >= 0.0 && g_play.m_setup.carry < 1.0 && g_play.m_setup.delay >= 0.0 && g_play.m_setup.delay <= 1.0e9 &&
+                  g_play.m_setup.tick_skip_samples_delay >= -SKIP_BOUND && g_play.m_setup.tick_skip_samples_delay <= SKIP_BOUND)
+/* exactly the reported number of samples was stored (unless the format was refused, where 0 is reported) */
+__CPROVER_ensures(!g_send_fails ==> (g_sent_frames >= 0 && g_sent_frames <= 1073741823 && __CPROVER_return_value == 2 * g_sent_frames));
+#endif
+#endif
 #endif
